@@ -21,7 +21,9 @@ harness. Proved (all arguments, unbounded):
 * `findE_brackets_partial` — the bisection returns an exponent inside the initial bracket whose
   moved ends were justified by comparisons against `ipow E ·`;
 * `taylor_lower_partial`, `exp_lower_partial` — one-sided real bound: for `0 ≤ x` the Taylor sum and
-  the whole `exp` never exceed `Real.exp x` (every term, `scale` and `ipow_` round down).
+  the whole `exp` never exceed `Real.exp x` (every term, `scale` and `ipow_` round down);
+* `exp_two_sided_unit_partial`, `within_error_bound_unit_partial` — the FULL two-sided statement for
+  `exp` on `-1 ≤ x ≤ 1`: `|exp x − e^x| ≤ 4.3·10^-24` (one-sided `2.1·10^-24` on `(0, 1]`).
 -/
 namespace PallasVerif.Props.C15
 open PallasVerif.Decimal PallasVerif.RefMath PallasVerif.Proofs.ExpCmp PallasVerif.Proofs.RefMath
@@ -150,6 +152,28 @@ theorem exp_lower_partial (x r : Int) (hx : 0 ≤ x) (h : expD x = some r) :
       have hnn : ¬ x < 0 := by omega
       simp only [refExp, h0, hnn, if_false] at hr
       exact (refExpPos_le_exp x hpos it v hr).1
+
+/-- **the full statement on the unit interval** (the domain of the leader-election exponent):
+    for `0 < x ≤ 1` the computed `exp x` is never above the true value and at most `2.1·10^-24`
+    below it (scaling exponent 1, ≤ 25 Taylor terms each ≤ 3 ulp short, remainder ≤ 2·EPS) -/
+theorem exp_two_sided_unit_partial (x r : Int) (h0 : 0 < x) (h1 : x ≤ P) (h : expD x = some r) :
+    toReal r ≤ Real.exp (toReal x) ∧ Real.exp (toReal x) ≤ toReal r + 21 / 10 ^ 25 :=
+  exp_unit_two_sided x r h0 h1 h
+
+/-- … i.e. `WithinErrorBoundFull` holds with the constant bound `4.3·10^-24` when restricted to
+    `-1 ≤ x ≤ 1` (negative arguments add one truncating division of `1` by `exp(-x)`) -/
+theorem within_error_bound_unit_partial (x r : Int) (h0 : -P ≤ x) (h1 : x ≤ P) (h : expD x = some r) :
+    |toReal r - Real.exp (toReal x)| ≤ 43 / 10 ^ 25 := by
+  rcases Int.lt_trichotomy x 0 with hx | hx | hx
+  · exact exp_unit_neg_two_sided x r hx h0 h
+  · subst hx
+    have : r = ONE := by
+      have := exp_zero.2; rw [this] at h; exact (Option.some.inj h).symm
+    subst this
+    have hz : toReal 0 = 0 := by simp [toReal]
+    rw [toReal_ONE, hz, Real.exp_zero]; norm_num
+  · obtain ⟨a, b⟩ := exp_unit_two_sided x r hx h1 h
+    rw [abs_le]; constructor <;> linarith
 
 /-! ## concrete digits (non-vacuity; the only value the pinned suite checks is exp 1) -/
 example : expD ONE = some 27182818284590452353602874043083282 := by decide +kernel
